@@ -116,7 +116,7 @@ func init() {
 				jobs = append(jobs, job{c, d, true}, job{c, d, false})
 			}
 		}
-		groups, err := buildGroups(len(jobs), func(i int) ([]Group, error) {
+		mk := func(i int) ([]Group, error) {
 			j := jobs[i]
 			ch := chains[j.c].Chain
 			var out []Group
@@ -133,15 +133,27 @@ func init() {
 				return nil, err
 			}
 			return append(out, h), nil
-		})
-		if err != nil {
-			rc.infra("runner: %v", err)
-			return
 		}
 		rc.cov("exhaustive", true)
 		rc.cov("rule", "splitting law: every split point of every chain of up to MaxSteps root-independent steps (16-step alphabet: accessors, subscripts, .**, filters on @, item methods incl. keyvalue) x all JSON trees up to MaxNodes nodes x {lax, strict} (strict splits after .** excluded, as in the property), plus the same steps from a variable and from a literal; context templates: constructs that rebind @ / last / leniency, left through each exit, followed by a use of the outer binding, judged against PathSem")
-		rc.cov("universe", map[string]any{"chains": len(chains), "docs": len(docs), "groups": len(groups), "constants": consts})
-		rc.groupFamily(groups, rerunGroup, "C09")
+		// the groups are built, judged and released batch by batch (the thorough
+		// universe does not fit in memory at once)
+		const batch = 8000
+		nGroups := 0
+		for lo := 0; lo < len(jobs); lo += batch {
+			hi := lo + batch
+			if hi > len(jobs) {
+				hi = len(jobs)
+			}
+			groups, err := buildGroups(hi-lo, func(i int) ([]Group, error) { return mk(lo + i) })
+			if err != nil {
+				rc.infra("runner: %v", err)
+				return
+			}
+			nGroups += len(groups)
+			rc.groupFamily(groups, rerunGroup, "C09")
+		}
+		rc.cov("universe", map[string]any{"chains": len(chains), "docs": len(docs), "groups": nGroups, "constants": consts})
 
 		// context templates: exec family, owned by C09
 		u := &ExecUniverse{Vars: []VarsRow{{Vars: []wire.Var{}}}}
